@@ -26,6 +26,7 @@ pub struct W {
     pub lookup: u32,
     pub remove: u32,
     pub remove_many: u32,
+    pub remove_all: u32,
     pub entry: u32,
     pub rawmut: u32,
     pub raw: u32,
@@ -71,6 +72,7 @@ fn base_w() -> W {
         lookup: 10,
         remove: 8,
         remove_many: 2,
+        remove_all: 1,
         entry: 10,
         rawmut: 8,
         raw: 3,
@@ -152,6 +154,7 @@ pub fn profile(prop: Prop, thorough: bool) -> Profile {
             p.w.retain = 6;
             p.w.clone = 8;
             p.w.remove_many = 5;
+            p.w.remove_all = 4;
             p.w.clear = 1;
             p.w.iter = 0;
             p.w.iter_mut = 0;
@@ -226,8 +229,9 @@ pub fn profile(prop: Prop, thorough: bool) -> Profile {
         C11 => {
             p.w.clone = 22;
             p.w.with_cap = 4;
-            p.w.churn = 3;
+            p.w.churn = 4;
             p.w.remove_many = 4;
+            p.w.remove_all = 5;
             p.w.eq = 3;
             p.w.set_clone = 5;
             p.w.set_point = 5;
@@ -469,6 +473,7 @@ pub fn op_strategy(p: &Profile) -> BoxedStrategy<Op> {
         .boxed(),
     );
     add(w.remove_many, (slot(), 1u32..=many, any::<u16>()).prop_map(|(s, n, stride)| Op::RemoveMany { s, n, stride }).boxed());
+    add(w.remove_all, slot().prop_map(|s| Op::RemoveAll { s }).boxed());
     add(w.entry, (slot(), keysel(), chain()).prop_map(|(s, k, chain)| Op::Entry { s, k, chain }).boxed());
     add(w.rawmut, (slot(), keysel(), rawhow(), chain()).prop_map(|(s, k, how, chain)| Op::RawEntryMut { s, k, how, chain }).boxed());
     add(w.raw, (slot(), keysel(), rawhow()).prop_map(|(s, k, how)| Op::RawEntry { s, k, how }).boxed());
